@@ -165,12 +165,16 @@ def gen_fit_op(rng, o, N, kinds=("move", "rotate", "setter"), forms=FORMS):
 def gen_path_op(rng, o, N, kinds=("move", "rotate", "setter", "reset"), forms=FORMS, wild=True, alias=False):
     k = rng.choice(kinds)
     if k == "move":
-        return gen_move(rng, o, N, wild=wild, alias=alias)
-    if k == "rotate":
-        return gen_rotate(rng, o, N, forms, wild=wild, alias=alias)
-    if k == "setter":
-        return gen_setter(rng, o, N, alias=alias)
-    return {"op": "reset_path", "o": o}
+        op = gen_move(rng, o, N, wild=wild, alias=alias)
+    elif k == "rotate":
+        op = gen_rotate(rng, o, N, forms, wild=wild, alias=alias)
+    elif k == "setter":
+        op = gen_setter(rng, o, N, alias=alias)
+    else:
+        return {"op": "reset_path", "o": o}
+    if alias and rng.random() < 0.3:
+        op["as_array"] = True  # inputs as caller-owned float64 ndarrays, overwritten after the call
+    return op
 
 
 def op_nvec(op):
@@ -249,8 +253,33 @@ def orientation_value(r):
 
 
 # ----------------------------------------------------------------------------- execution
+def _as_arrays(op):
+    """op['as_array']: list-valued inputs are handed over as caller-owned float64 ndarrays; the caller
+    re-uses (overwrites) its buffers right after the call, which must not reach into the object"""
+    bufs = []
+    out = dict(op)
+    for key in ("d", "anchor", "v"):
+        val = op.get(key)
+        if isinstance(val, list) and val and not (op.get("bad") and op["bad"]["field"] == key):
+            arr = np.array(val, dtype=np.float64)
+            out[key] = arr
+            bufs.append(arr)
+    return out, bufs
+
+
 def exec_path_op(obj, op):
     """Execute on a real magpylib object.  Returns 'ok' or 'raised:<Type>'."""
+    bufs = []
+    if op.get("as_array"):
+        op, bufs = _as_arrays(op)
+    try:
+        return _exec_path_op(obj, op)
+    finally:
+        for arr in bufs:
+            arr += 1000.0  # the caller scribbles over its own buffer
+
+
+def _exec_path_op(obj, op):
     k = op["op"]
     try:
         with warnings.catch_warnings():
